@@ -240,7 +240,7 @@ func impliedBy(a, b canonCond, tb bool) (bool, bool) {
 // constants, or nil against a value that is never nil (a freshly made channel, map, slice, closure, allocation, function).
 func evalOnPath(pa *Path, c ssa.Value, step int) (bool, bool) {
 	b, ok := c.(*ssa.BinOp)
-	if !ok || (b.Op != token.EQL && b.Op != token.NEQ) {
+	if !ok {
 		return false, false
 	}
 	_, px := strip(b.X, false).(*ssa.Phi)
@@ -249,6 +249,19 @@ func evalOnPath(pa *Path, c ssa.Value, step int) (bool, bool) {
 		return false, false
 	}
 	x, y := pa.Resolve(b.X, step), pa.Resolve(b.Y, step)
+	switch b.Op {
+	case token.LSS, token.LEQ, token.GTR, token.GEQ:
+		// an ordered comparison of two integer constants, one of them a merge that this path resolves (t := r; if r < 0 {t = 0}; if t <= 0)
+		cx, okx := strip(x, true).(*ssa.Const)
+		cy, oky := strip(y, true).(*ssa.Const)
+		if okx && oky && cx.Value != nil && cy.Value != nil && cx.Value.Kind() == constant.Int && cy.Value.Kind() == constant.Int {
+			return constant.Compare(cx.Value, b.Op, cy.Value), true
+		}
+		return false, false
+	case token.EQL, token.NEQ:
+	default:
+		return false, false
+	}
 	kind := func(v ssa.Value) int { // 1 nil, 2 never nil, 0 unknown
 		switch t := strip(v, false).(type) {
 		case *ssa.Const:
